@@ -122,17 +122,37 @@ def faithful_cases():
     c.append(("anon-positional", "(p, q) <== Two()(x, y);", exp2))
     c.append(("anon-named", "(p, q) <== Two()(a <== x, b <== y);", exp2))
     c.append(("anon-named-swapped", "(p, q) <== Two()(b <== y, a <== x);", exp2))
+    # named inputs with different assignment operators: each input keeps the operator written next to its name
+    exp3 = "component t = Two(); t.a <-- x; t.b <== y; p <== t.o; q <== t.r;"
+    c.append(("anon-named-mixed-ops", "(p, q) <== Two()(a <-- x, b <== y);", exp3))
+    c.append(("anon-named-mixed-ops-swapped", "(p, q) <== Two()(b <== y, a <-- x);", exp3))
+    exp4 = "component t = Two(); t.a <== x; t.b <-- y * y; p <== t.o; q <== t.r;"
+    c.append(("anon-named-mixed-ops-swapped-2", "(p, q) <== Two()(b <-- y * y, a <== x);", exp4))
     c.append(("anon-one-output-skipped", "(p, _) <== Two()(x, y); q <== x;", "component t = Two(); t.a <== x; t.b <== y; p <== t.o; q <== x;"))
     return c
 
 
 def findings_of(out):
-    """the displayed findings without file positions: (severity[code], first message line)"""
+    """the displayed findings without file positions: the header line (severity[code]: message) plus the label texts, with
+    component-qualified names normalised (`Two_6_370.a` and `t.a` both become `<c>.a`: the name of an anonymous component
+    is generated, the hand-written expansion chooses its own)"""
     import re
     f = []
+    cur = None
     for l in out.split("\n"):
         if re.match(r"^(warning|error|note|info)(\[\w+\])?:", l):
-            f.append(l.strip())
+            if cur is not None:
+                f.append(cur)
+            cur = l.strip()
+        elif cur is not None:
+            m = re.match(r"^\s*│\s+[\^-]+ (.+)$", l)   # a label line: only carets / dashes before the text
+            if m:
+                cur += " | " + re.sub(r"`\w+(\[[^\]]*\])?\.(\w+)", r"`<c>.\2", m.group(1).strip())
+            elif l.startswith("circomspect:"):
+                f.append(cur)
+                cur = None
+    if cur is not None:
+        f.append(cur)
     return sorted(f)
 
 
@@ -190,7 +210,7 @@ def suite_tuples(exe, tier, seed):
         shutil.rmtree(d, ignore_errors=True)
     return {"unit": "e2e-tuples", "evaluations": evals, "distinct_nontrivial": nontrivial, "exhaustive": True,
             "rule": "the real CLI (a) on a sugared statement and on its hand-written expansion: same exit status and same displayed findings; (b) on one generated file per (definition kind, syntactic position, tuple shape): the tool must terminate with exit status 0 or 1 and must not panic; every case is distinct and non-trivial (contains a tuple)",
-            "bound": "faithfulness: 13 sugared statements (tuple destinations with `_` in every position, tuple-to-tuple, anonymous components with positional / named / swapped named inputs) against their hand-written expansions, findings compared as multisets without positions; completeness: 3 tuple shapes (flat, with a signal, nested) x 19 positions (assignment sides, conditions, array indices, assert/log/return/call arguments, operands, initialisers, loop bodies) in templates and functions, plus 8 well-formed / malformed tuple statements",
+            "bound": "faithfulness: 16 sugared statements (tuple destinations with `_` in every position, tuple-to-tuple, anonymous components with positional / named / swapped named inputs) against their hand-written expansions, findings compared as multisets without positions; completeness: 3 tuple shapes (flat, with a signal, nested) x 19 positions (assignment sides, conditions, array indices, assert/log/return/call arguments, operands, initialisers, loop bodies) in templates and functions, plus 8 well-formed / malformed tuple statements",
             "samples": samples, "violations": viol}
 
 
